@@ -154,7 +154,13 @@ impl CliResult {
                 // file:line:col -> file:line
                 let parts: Vec<&str> = site.split(':').collect();
                 if parts.len() >= 2 {
-                    return format!("{}:{}", parts[0].replace("/repo/", ""), parts[1]);
+                    // repository sources relative to the repo, dependencies relative to the registry
+                    let mut file = parts[0].replace("/repo/", "");
+                    if let Some(i) = file.find("/registry/src/") {
+                        let rest = &file[i + 14..];
+                        file = rest.split_once('/').map(|x| x.1.to_string()).unwrap_or(rest.to_string());
+                    }
+                    return format!("{}:{}", file, parts[1]);
                 }
                 return site;
             }
